@@ -25,8 +25,9 @@ Decisions where docs/pfdl/*.md are silent (see also the report of vgen_selftest.
   * a variable is only used textually after one of its definitions; re-definition keeps the type.
   * array elements ("a.b[0].c") inside expressions / loop limits: syntactically legal, nothing in the docs
     uses them; NOT generated unless allow=("expr_array_elem",) is passed.
-  * "==" / "!=" between strings: generated (strings are comparable with < > in the checker's own words),
-    can be switched off with avoid=("string_eq",).
+  * strings in expressions: only as BOTH operands of an ordering comparison (< > <= >=).  "==" / "!=" with
+    string operands is NOT generated (project decision: the checker restricts operands of == != And Or and
+    whole conditions to number/boolean); allow=("string_eq",) switches it on for experiments.
 """
 import copy
 import json
@@ -553,7 +554,7 @@ STRINGS = ["green", "red", "a b", "", "x#1", "End", "true", "42", "part-7", "In:
 NUM_LITS = [0, 1, 2, 3, 5, 10, 255, -1, -3, 0.5, 1.5, 2.25, 100, 7.0]
 
 # optional constructs: (name, probability that a program may use it); allow=/avoid= force them on/off
-FEATURES = (("string_eq", 0.3), ("prim_array_elem", 1.0), ("prim_params", 1.0), ("array_params", 1.0),
+FEATURES = (("string_eq", 0.0), ("prim_array_elem", 1.0), ("prim_params", 1.0), ("array_params", 1.0),
             ("redefinition", 1.0), ("prim_outs", 1.0), ("limit_zero", 1.0), ("expr_array_elem", 0.0))
 MAX_LITERAL_WEIGHT = 24  # bound on the number of leaf values of a struct literal
 
